@@ -16,8 +16,9 @@
    for connChanged | caller ctx | client ctx; on connChanged loop.
 
    A labelled transition system; connections are generations 0,1,2,...; the reconnect
-   machinery (backoff, dialing, key exchange, init) is the single environment event
-   [EReplace] -- exercised by the harness, not modelled.  Every send that reaches the
+   machinery (dialing, key exchange, init) is the pair of environment events [EReplace]
+   (the notify callback of backoff.RetryNotify installs the new connection) and [EStart] (after
+   the backoff pause the loop runs it) -- exercised by the harness, not modelled further.  Every send that reaches the
    server executes the request there (a re-sent request has a new msg_id). *)
 From Coq Require Import List ZArith Bool Arith.
 Import ListNotations.
@@ -45,7 +46,9 @@ Record state := mkSt {
   cancelled : bool;             (* caller ctx done *)
   nsends : nat;                 (* executions of the request on the server *)
   acked : bool;                 (* ghost: the client processed an ack for some send *)
-  sends_at_ack : nat            (* ghost: nsends when that happened *)
+  sends_at_ack : nat;           (* ghost: nsends when that happened *)
+  paused : bool                 (* the current generation was installed by the reconnect loop's notify callback
+                                   and is NOT running yet: backoff.RetryNotify sleeps before it calls conn.Run *)
 }.
 
 Inductive event :=
@@ -59,27 +62,32 @@ Inductive event :=
 | EWakeClosed               (* invocation: select chose client ctx *)
 | EWakeCtx                  (* invocation: select / Do chose the caller's ctx *)
 | EKill (g : nat)           (* environment: connection of generation g dies *)
-| EReplace                  (* environment: reconnect loop installs a new connection *)
-| EClose                    (* environment: client closed (all connections die) *)
+| EReplace                  (* environment: reconnect loop installs a new connection (replaceConn); it is not run yet *)
+| EStart                    (* environment: the backoff pause ends, the loop calls Run of the installed connection;
+                               with the client already closed its context is cancelled and it dies at once *)
+| EClose                    (* environment: client closed (every RUNNING connection dies) *)
 | ECancel.                  (* environment: caller cancels its ctx *)
 
 Definition is_dead (st : state) (g : nat) : bool := existsb (Nat.eqb g) (dead st).
+(* generation g cannot carry traffic: dead, or installed and not yet running (an invocation on it
+   sits in manager.Conn.waitSession: neither gotConfig nor dead is signalled) *)
+Definition unusable (st : state) (g : nat) : bool := is_dead st g || (paused st && Nat.eqb g (cur_gen st)).
 Definition set_ph (st : state) (p : phase) : state :=
-  mkSt p (cur_gen st) (dead st) (closed st) (cancelled st) (nsends st) (acked st) (sends_at_ack st).
+  mkSt p (cur_gen st) (dead st) (closed st) (cancelled st) (nsends st) (acked st) (sends_at_ack st) (paused st).
 
 Definition step (st : state) (e : event) : option state :=
   match e, ph st with
   | ESnapshot, Idle => Some (set_ph st (OnConn (cur_gen st) Unsent))
   | ESend, OnConn g Unsent =>
-      if is_dead st g then None
-      else Some (mkSt (OnConn g SentUnacked) (cur_gen st) (dead st) (closed st) (cancelled st) (S (nsends st)) (acked st) (sends_at_ack st))
+      if unusable st g then None
+      else Some (mkSt (OnConn g SentUnacked) (cur_gen st) (dead st) (closed st) (cancelled st) (S (nsends st)) (acked st) (sends_at_ack st) (paused st))
   | ESendLost, OnConn g Unsent =>
-      if is_dead st g then None else Some (set_ph st (OnConn g SentLost))
+      if unusable st g then None else Some (set_ph st (OnConn g SentLost))
   | EAck, OnConn g SentUnacked =>
-      if is_dead st g then None
-      else Some (mkSt (OnConn g Acked) (cur_gen st) (dead st) (closed st) (cancelled st) (nsends st) true (nsends st))
+      if unusable st g then None
+      else Some (mkSt (OnConn g Acked) (cur_gen st) (dead st) (closed st) (cancelled st) (nsends st) true (nsends st) (paused st))
   | EResult v, OnConn g SentUnacked | EResult v, OnConn g Acked =>
-      if is_dead st g then None else Some (set_ph st (Returned (RRes v)))
+      if unusable st g then None else Some (set_ph st (Returned (RRes v)))
   | EObserveDead, OnConn g s =>
       if is_dead st g then
         match s with
@@ -90,17 +98,23 @@ Definition step (st : state) (e : event) : option state :=
   | EWake, Waiting g => if Nat.ltb g (cur_gen st) then Some (set_ph st Idle) else None
   | EWakeClosed, Waiting g => if closed st then Some (set_ph st (Returned RClosed)) else None
   | EWakeCtx, Waiting g | EWakeCtx, OnConn g _ => if cancelled st then Some (set_ph st (Returned RCtx)) else None
-  | EKill g, _ => if is_dead st g || negb (Nat.leb g (cur_gen st)) then None
-                  else Some (mkSt (ph st) (cur_gen st) (g :: dead st) (closed st) (cancelled st) (nsends st) (acked st) (sends_at_ack st))
+  | EKill g, _ => if unusable st g || negb (Nat.leb g (cur_gen st)) then None
+                  else Some (mkSt (ph st) (cur_gen st) (g :: dead st) (closed st) (cancelled st) (nsends st) (acked st) (sends_at_ack st) (paused st))
   | EReplace, _ =>
       (* the loop replaces the connection only after it died, and never after close *)
       if is_dead st (cur_gen st) && negb (closed st)
-      then Some (mkSt (ph st) (S (cur_gen st)) (dead st) (closed st) (cancelled st) (nsends st) (acked st) (sends_at_ack st))
+      then Some (mkSt (ph st) (S (cur_gen st)) (dead st) (closed st) (cancelled st) (nsends st) (acked st) (sends_at_ack st) true)
+      else None
+  | EStart, _ =>
+      if paused st
+      then Some (mkSt (ph st) (cur_gen st) (if closed st then cur_gen st :: dead st else dead st)
+                      (closed st) (cancelled st) (nsends st) (acked st) (sends_at_ack st) false)
       else None
   | EClose, _ =>
-      Some (mkSt (ph st) (cur_gen st) (seq 0 (S (cur_gen st)) ++ dead st) true (cancelled st) (nsends st) (acked st) (sends_at_ack st))
+      Some (mkSt (ph st) (cur_gen st) (seq 0 (if paused st then cur_gen st else S (cur_gen st)) ++ dead st) true
+                 (cancelled st) (nsends st) (acked st) (sends_at_ack st) (paused st))
   | ECancel, _ =>
-      Some (mkSt (ph st) (cur_gen st) (dead st) (closed st) true (nsends st) (acked st) (sends_at_ack st))
+      Some (mkSt (ph st) (cur_gen st) (dead st) (closed st) true (nsends st) (acked st) (sends_at_ack st) (paused st))
   | _, _ => None
   end.
 
@@ -110,7 +124,7 @@ Fixpoint run (st : state) (es : list event) : option state :=
   | e :: t => match step st e with Some st' => run st' t | None => None end
   end.
 
-Definition init : state := mkSt Idle 0 [] false false 0 false 0.
+Definition init : state := mkSt Idle 0 [] false false 0 false 0 false.
 
 (* the invocation's own next step once the client is closed (no environment help needed);
    [prefer_wake]: which ready case the select picks when connChanged is ready too *)
